@@ -125,6 +125,35 @@ theorem C06_projection_valid (S : Schema) (hS : NoEmptyName S) (ty : Nat) (ps : 
     filterClone (some ps) fs = some (project ps fs) :=
   C06_projection (some ps) fs (fun ps' e => by cases e; exact C06_valid_masks_are_proper S hS ty ps hv)
 
+/-- **C06_read_below_message_field.**  No message-typed field is a leaf for a read mask, whatever its
+type (a `google.protobuf.Timestamp` is a message with the fields `seconds` and `nanos` like any
+other): the mask `{k.c}` returns `k.c` as stored and nothing at a sibling `k.d`. -/
+theorem C06_read_below_message_field (k c d : Name) (fs r : Fields)
+    (hk : k ≠ "") (hc : c ≠ "") (hcd : c ≠ d)
+    (hr : filterClone (some [[k, c]]) fs = some r) :
+    r.getPath [k, c] = fs.getPath [k, c] ∧ r.getPath [k, d] = none := by
+  have hps : NonNil [[k, c]] ∧ Clean [[k, c]] := by
+    constructor
+    · intro p hp; simp at hp; subst hp; simp
+    · intro p hp; simp at hp; subst hp
+      intro hs; simp at hs
+      rcases hs with rfl | rfl
+      · exact hk rfl
+      · exact hc rfl
+  have h := C06_read_selected [[k, c]] fs r
+  constructor
+  · exact (h [k, c] hps hr).1 ⟨[k, c], by simp, List.prefix_refl _⟩
+  · refine (h [k, d] hps hr).2 (by simp) ?_
+    intro q hq
+    simp at hq; subst hq
+    constructor
+    · intro hp
+      have := List.IsPrefix.eq_of_length hp (by simp)
+      simp at this; exact hcd this
+    · intro hp
+      have := List.IsPrefix.eq_of_length hp (by simp)
+      simp at this; exact hcd this.symm
+
 /-! ## Non-vacuity -/
 
 /-- A small schema: type 0 = {f : message 1, g : scalar, r : repeated scalar, m : map}, type 1 = {c, d}. -/
@@ -149,5 +178,19 @@ example : validate exSchema 0 (some [["r", "x"]]) = false ∧ validate exSchema 
     ∧ validate exSchema 0 (some [["g", "x"]]) = false ∧ validate exSchema 0 (some [["nope"]]) = false := by decide
 /-- …and reading with them does not panic (the field is selected whole). -/
 example : filterClone (some [["r", "x"]]) exMsg = some (.cons "r" (.scs ["i1"]) .nil) := by decide
+
+/-- A message with a well-known-type field: type 0 = {t : message 1, n : scalar}, type 1 is
+`google.protobuf.Timestamp` = {seconds, nanos}. -/
+def wkSchema : Schema :=
+  [[⟨"t", .message 1, 0⟩, ⟨"n", .scalar, 0⟩], [⟨"seconds", .scalar, 0⟩, ⟨"nanos", .scalar, 0⟩]]
+def wkMsg : Fields :=
+  .cons "t" (.msg (.cons "seconds" (.sc "i1790724832") (.cons "nanos" (.sc "i5") .nil))) (.cons "n" (.sc "i3") .nil)
+/-- A path INTO the Timestamp is a valid read mask and selects just that field of it: the nanos are
+not returned (a filter that keeps the Timestamp whole differs from the projection). -/
+example : validate wkSchema 0 (some [["t", "seconds"]]) = true := by decide
+example : filterClone (some [["t", "seconds"]]) wkMsg
+    = some (.cons "t" (.msg (.cons "seconds" (.sc "i1790724832") .nil)) .nil) := by decide
+example : (project [["t", "seconds"]] wkMsg).getPath ["t", "nanos"] = none := by decide
+example : (project [["t", "seconds"]] wkMsg).getPath ["t", "seconds"] = wkMsg.getPath ["t", "seconds"] := by decide
 
 end ScVerif.C06
